@@ -548,3 +548,124 @@ Contract(ISAR, 'make_union', ['C17'], mu_setup, mu_post, raises=mu_raises, modif
          loops={0: LoopAnn(lambda vm, env, k: arms_facts(vm, env.get('members'), k), index='k',
                            locals_={'members': fresh_members}, extra_havoc=('members',))},
          notes=['ElementTree accessors assumed; attribute values opaque'])
+
+
+# ------------------------------------------------------------------------------------------------ make_struct
+#
+# make_struct(xml_elem, last_member_array_is_dynamic): an element without children denotes nothing (None); otherwise a
+# Struct named as the element whose member list is the concatenation, in child order, of what make_struct_members
+# (by its contract above: a list of one to three members) yields for each child, called with that child and with the
+# flag as given (so a <message>, for which the flag is set, drops the limit of every variable-size array).
+
+SM_LEN = z3.Function('members_of.len', z3.IntSort(), z3.IntSort())            # how many members child i denotes (1..3)
+SM_AT = z3.Function('members_of.at', z3.IntSort(), z3.IntSort(), Ref)         # the j-th of them
+SM_OFF = z3.Function('members_of.offset', z3.IntSort(), z3.IntSort())         # sum of the lengths before child i
+
+
+class StructElem(Elem):
+    pass
+
+
+class MemberChild(Sym):
+    def __init__(self, i):
+        self.i = i
+
+
+StructElem.sym_len = lambda self, vm: SInt(NCHILD())
+
+
+def ms_setup(vm, module, env):
+    elem = StructElem(vm, 'struct', ['name', 'comment'])
+    flag = SBool(vm.fresh('last_member_array_is_dynamic', z3.BoolSort()))
+    vm.assume(NCHILD() >= 0)
+    vm.assume(SM_OFF(0) == 0)
+    st = {'args': [elem, flag], 'elem': elem, 'flag': flag, 'closure_env': {}, 'members': None, 'enum': None}
+    vm.state = st
+    return st
+
+
+def ms_hooks():
+    base = me_hooks()
+
+    def call(vm, fn, args, kwargs, node):
+        st = vm.state
+        n = getattr(fn, 'name', None) or getattr(fn, 'qualname', None) or ''
+        last = n.split('.')[-1] if isinstance(n, str) else ''
+        if isinstance(fn, Closure) and last == 'make_struct_members':
+            ok = len(args) == 2 and not kwargs and isinstance(args[0], MemberChild) and args[1] is st['flag']
+            vm.oblige('call.make_struct_members:(the child at hand, the flag as given)', z3.BoolVal(ok), 'call', vm.cur_line)
+            if not ok:
+                raise OutOfSubset('make_struct_members called otherwise')
+            i = args[0].i
+            vm.assume(z3.And(1 <= SM_LEN(i), SM_LEN(i) <= 3))            # its contract: one to three members
+            if vm.choose(2) == 1:
+                raise PyRaise(I.ExcClass('ParseError'))                 # ... or ParseError for a missing attribute
+            return SSeq(SM_LEN(i), lambda j: SRef(SM_AT(i, j), None, False), 'members_of_child')
+        if last == 'Struct' and not isinstance(fn, Closure):
+            if len(args) != 2 or any(k != 'docstring' for k in kwargs):
+                raise OutOfSubset('Struct constructor shape')
+            st['enum'] = EnumObj(args[0], args[1])
+            return st['enum']
+        return base['call'](vm, fn, args, kwargs, node)
+
+    def iterate(vm, it):
+        if isinstance(it, StructElem):
+            return SSeq(NCHILD(), lambda i: MemberChild(i), 'children')
+        return NotImplemented
+
+    h = dict(base)
+    h.update({'call': call, 'iterate': iterate})
+    return h
+
+
+def concat_facts(vm, ms, k, inner=None):
+    """members == members_of(child 0) ++ ... ++ members_of(child k-1) [ ++ the first `inner` of child k ]"""
+    if isinstance(ms, list):
+        return [('members collected so far', z3.And(k == 0, z3.BoolVal(len(ms) == 0 and inner is None)))]
+    i, j = z3.Ints('i j')
+    r = [('as many members as the children so far denote', ms.length == SM_OFF(k) + (inner if inner is not None else 0)),
+         ('the members of every child so far, in order, at their place',
+          z3.ForAll([i, j], z3.Implies(z3.And(0 <= i, i < k, 0 <= j, j < SM_LEN(i)), ms.elem(SM_OFF(i) + j).t == SM_AT(i, j)),
+                    patterns=[SM_AT(i, j)]))]
+    r.append(('the places of earlier children lie below those of later ones',
+              z3.ForAll([i], z3.Implies(z3.And(0 <= i, i < k), z3.And(SM_OFF(i) >= 0, SM_LEN(i) >= 1, SM_OFF(i) + SM_LEN(i) <= SM_OFF(k))),
+                        patterns=[SM_OFF(i)])))
+    if inner is not None:
+        r.append(('the members of the child at hand so far', z3.ForAll([j], z3.Implies(z3.And(0 <= j, j < inner),
+                                                                                       ms.elem(SM_OFF(k) + j).t == SM_AT(k, j)),
+                                                                       patterns=[SM_AT(k, j)])))
+    return r
+
+
+def ms_unfold(vm, env, k):
+    return [SM_OFF(k + 1) == SM_OFF(k) + SM_LEN(k), z3.And(1 <= SM_LEN(k), SM_LEN(k) <= 3), SM_OFF(k) >= 0]
+
+
+def ms_outer(vm, env, k):
+    return concat_facts(vm, env.get('members'), k) + [('offsets are sums of lengths', SM_OFF(k) >= 0)]
+
+
+def ms_inner(vm, env, j):
+    k = vm.path.ghost['k']
+    return concat_facts(vm, env.get('members'), k, inner=j) + [('offsets are sums of lengths', SM_OFF(k) >= 0)]
+
+
+def ms_inner_unfold(vm, env, j):
+    k = vm.path.ghost['k']
+    return [SM_OFF(k + 1) == SM_OFF(k) + SM_LEN(k)]
+
+
+def ms_post(vm, st, result):
+    if result is None:
+        return [('None only for an element without children', NCHILD() == 0)]
+    if not isinstance(result, EnumObj):
+        return [('result is the Struct built here', z3.BoolVal(False))]
+    return [('a Struct only for an element with children', NCHILD() > 0),
+            ('named as the element', vm.as_str(result.name) == st['elem'].attrs['name'].t)] + concat_facts(vm, result.members, NCHILD())
+
+
+Contract(ISAR, 'make_struct', ['C17'], ms_setup, ms_post, raises=mu_raises, modifies=[], hooks=ms_hooks(),
+         loops={0: LoopAnn(ms_outer, index='k', locals_={'members': fresh_members}, extra_havoc=('members',), unfold=ms_unfold),
+                1: LoopAnn(ms_inner, index='j', locals_={'members': fresh_members}, extra_havoc=('members',), unfold=ms_inner_unfold)},
+         notes=['make_struct_members by its contract (one to three members, or ParseError)',
+                'offset(i+1) = offset(i) + len(i): the definition of the running sum, unfolded at the loop index'])
